@@ -43,6 +43,20 @@ CLAIMED = {
         "design_ref": "DESIGN.md section 4, C09",
         "note": "least-squares equivariance contract for the linear solver; time constants of the rescaled problem assumed tau/s; floats as reals",
     },
+    "C11": {
+        "category": "other",
+        "text": "The analytic core of Z-HIT on the real code with symbolic ln(omega) values, phase coefficients, weights, data and scale factor: "
+                "_reconstruct with quadrature/spline replaced by the exact integral/derivative of a given phase function returns, for a constant "
+                "phase, (2/pi)*phi*(ln w_i - ln w_0) in both representations (exact reconstruction for R, C, L, Q, W) and, for a linear phase, "
+                "adds gamma*dphi/dln(w) with gamma = -pi/6; _offset_residual gives 0 for every point of weight 0 and weight*(rec+offset-ln|X|)^2 "
+                "otherwise; weights without a positive entry or with a negative one are refused with ZHITError before the minimiser runs; "
+                "_adjust_offset with the minimiser replaced by the weighted least-squares offset scales the reconstruction by c when the data are "
+                "scaled by c.",
+        "design_ref": "DESIGN.md section 4, C11",
+        "note": "PARTIAL: the smoothing kernels (and that they leave constant/linear data unchanged), _generate_weights, real splines/quadrature "
+                "and the 'few percent' clause for RC/RQ ladders are not claimed; exp/ln/rect are uninterpreted with the functional equations "
+                "instantiated on the terms that occur",
+    },
     "C12": {
         "category": "other",
         "text": "The real fit_circuit, _fit_process, _to_lmfit, _from_lmfit, _residual, _convert_intermediate_result and _extract_parameters run on "
@@ -55,6 +69,18 @@ CLAIMED = {
         "design_ref": "DESIGN.md section 4, C12",
         "note": "PARTIAL: recovery of the generating parameters / vanishing chi-squared on noise-free data is optimiser behaviour and is not claimed; "
                 "lmfit is a contract stub; leastsq/boukamp only in the constraint obligations",
+    },
+    "C13": {
+        "category": "other",
+        "text": "Algebra of the TR-NNLS method on the real code with symbolic frequencies, time constants, spectra, regularisation parameter and scale "
+                "factors (scipy nnls = deterministic uninterpreted function with g >= 0): each column of _generate_A_matrix is delta_ln_tau times the "
+                "real (minus imaginary) part of a unit RC element at that time constant; _generate_model_impedance equals R_inf + R_pol*A.g in the "
+                "fitted part and copies the other part; through the whole calculate_drt_tr_nnls driver, scaling Z by c leaves the regularised "
+                "system unchanged, scales gamma by c and leaves tau unchanged, scaling f by s scales tau by 1/s and leaves gamma unchanged; gamma >= 0 "
+                "when the polarisation resistance is positive; R_pol > 0 for R0 plus one or two RC elements with positive resistances.",
+        "design_ref": "DESIGN.md section 4, C13",
+        "note": "PARTIAL: area = resistance and peak positions of an actual NNLS solution, lambda selection, the Loewner method, m(RQ)-fit, BHT and "
+                "TR-RBF are not claimed (nnls/SVD/transcendental integrals have no encoding within reach)",
     },
     "C14": {
         "category": "model_checking",
